@@ -237,4 +237,116 @@ theorem connect_pending_of_pending (w : World) (h s id : Nat) (loc rem : Addr) (
   unfold connectPoll
   simp only [ho, hd]
 
+
+/-! ### a two-way partition refuses every request still in flight on the link — held or not -/
+
+theorem syns_length_dropSyn (w : World) (id : Nat) : (w.dropSyn id).syns.length = w.syns.length := by
+  unfold dropSyn; simp
+
+theorem getD_setAt_ne {α : Type} (l : List α) (i j : Nat) (f : α → α) (d : α) (h : j ≠ i) :
+    (setAt l i f).getD j d = l.getD j d := by
+  induction l generalizing i j with
+  | nil => rfl
+  | cons x xs ih =>
+    cases i with
+    | zero =>
+      cases j with
+      | zero => exact absurd rfl h
+      | succ k => simp [setAt, List.getD]
+    | succ i' =>
+      cases j with
+      | zero => simp [setAt, List.getD]
+      | succ k =>
+        have := ih i' k (by omega)
+        simpa [setAt, List.getD] using this
+
+theorem dropSyn_other (w : World) (id id' : Nat) (h : id ≠ id') :
+    (w.dropSyn id').syns.getD id default = w.syns.getD id default := by
+  unfold dropSyn
+  simp only
+  exact getD_setAt_ne _ _ _ _ _ h
+
+theorem dropSyn_keeps_dropped (w : World) (id id' : Nat)
+    (hd : (w.syns.getD id default).st = .dropped) : ((w.dropSyn id').syns.getD id default).st = .dropped := by
+  by_cases e : id = id'
+  · subst e
+    unfold dropSyn
+    simp only
+    by_cases hl : id < w.syns.length
+    · rw [setAt_getD _ _ _ _ hl]
+      generalize w.syns.getD id default = c at hd ⊢
+      simp [hd]
+    · have : setAt w.syns id (fun c => if c.st == .pending then { c with st := .dropped } else c) = w.syns := by
+        clear hd
+        generalize w.syns = l at hl
+        induction l generalizing id with
+        | nil => rfl
+        | cons x xs ih =>
+          cases id with
+          | zero => simp at hl
+          | succ k => simp only [setAt]; rw [ih k (by simpa using hl)]
+      rw [this]; exact hd
+  · rw [dropSyn_other w id id' e]; exact hd
+
+theorem dropEnvs_keeps_dropped (es : List Env) (w : World) (id : Nat)
+    (hd : (w.syns.getD id default).st = .dropped) : ((w.dropEnvs es).syns.getD id default).st = .dropped := by
+  unfold dropEnvs
+  induction es generalizing w with
+  | nil => exact hd
+  | cons e es ih =>
+    simp only [List.foldl_cons]
+    apply ih
+    cases hm : e.msg with
+    | syn id' => exact dropSyn_keeps_dropped w id id' hd
+    | udp _ => exact hd
+    | data _ _ => exact hd
+    | fin _ => exact hd
+    | rst => exact hd
+
+/-- a pending request whose SYN is among the discarded envelopes is refused. -/
+theorem dropEnvs_drops (es : List Env) (w : World) (id : Nat) (hid : id < w.syns.length)
+    (hp : (w.syns.getD id default).st = .pending) (hmem : ∃ e ∈ es, e.msg = .syn id) :
+    ((w.dropEnvs es).syns.getD id default).st = .dropped := by
+  induction es generalizing w with
+  | nil => obtain ⟨e, he, _⟩ := hmem; exact absurd he (by simp)
+  | cons e es ih =>
+    have hstep : (w.dropEnvs (e :: es)) = ((match e.msg with | .syn id' => w.dropSyn id' | _ => w).dropEnvs es) := by
+      unfold dropEnvs; rfl
+    rw [hstep]
+    cases hm : e.msg with
+    | syn id' =>
+      simp only
+      by_cases eq : id' = id
+      · subst eq
+        exact dropEnvs_keeps_dropped es _ id' (dropSyn_dropped w id' hid hp)
+      · apply ih (w.dropSyn id')
+        · rw [syns_length_dropSyn]; exact hid
+        · rw [dropSyn_other w id id' (fun h => eq h.symm)]; exact hp
+        · obtain ⟨x, hx, hxm⟩ := hmem
+          rcases List.mem_cons.mp hx with h | h
+          · subst h; rw [hm] at hxm; exact absurd (Msg.syn.inj hxm) eq
+          · exact ⟨x, h, hxm⟩
+    | udp _ | data _ _ | fin _ | rst =>
+      simp only
+      apply ih w hid hp
+      obtain ⟨x, hx, hxm⟩ := hmem
+      rcases List.mem_cons.mp hx with h | h
+      · subst h; rw [hm] at hxm; exact absurd hxm (by simp)
+      · exact ⟨x, h, hxm⟩
+
+/-- **C12, partition around the handshake**: `partition(x, y)` refuses every connect whose request is
+    still travelling on — or parked by a `hold` of — the link between the two hosts: its one-shot cell
+    becomes `dropped`, so the connector's next poll returns ConnectionRefused
+    (`connect_refused_of_dropped`) instead of hanging. -/
+theorem partition_refuses_inflight (w : World) (x y li id : Nat) (l : Link Env)
+    (hf : w.findLink (w.host! x).ipnum (w.host! y).ipnum = some li) (hl : w.links[li]? = some l)
+    (hid : id < w.syns.length) (hp : (w.syns.getD id default).st = .pending)
+    (hs : ∃ s ∈ l.sent, s.msg.msg = .syn id) :
+    (((w.ctlPartition x y).syns).getD id default).st = .dropped := by
+  unfold ctlPartition onLink
+  simp only [hf, hl]
+  obtain ⟨s, hs1, hs2⟩ := hs
+  refine dropEnvs_drops _ { w with links := setAt w.links li fun _ => l.explicitPartition.1 } id (by exact hid) (by exact hp) ?_
+  exact ⟨s.msg, List.mem_map.mpr ⟨s, hs1, rfl⟩, hs2⟩
+
 end TV.C12
